@@ -160,12 +160,13 @@ def run(prog, rep, tier):
                        "parental alleles at the same marker) which are the structural reason limits can only tighten along a closed history.")
     rep.not_decided = ["monotonicity along histories as a runtime fact: it is the logical consequence of R1-R3 for exact frequencies, stated as an argument, not explored",
                        "every selection rule / protocol parameter"]
-    rep.only_rules = {"R1-limits", "R5-exact-at-one", "R6-accumulator", "R1-provenance", "R2-tiling", "R4-stacking", "R3-crossover"}
-    for r, n in (("R1-limits", 8), ("R5-exact-at-one", 4), ("R6-accumulator", 4), ("R1-provenance", 2), ("R2-tiling", 2), ("R4-stacking", 4)):
+    rep.only_rules = {"R1-limits", "R5-exact-at-one", "R6-accumulator", "R8-fresh", "R1-provenance", "R2-tiling", "R4-stacking", "R3-crossover"}
+    for r, n in (("R1-limits", 8), ("R5-exact-at-one", 4), ("R6-accumulator", 4), ("R8-fresh", 16), ("R1-provenance", 2), ("R2-tiling", 2), ("R4-stacking", 4)):
         rep.floor(r, n)
     check_limits(prog, rep)
     c09.check_exactness(prog, rep, tier, sink_filter=c09.NOT_SELECTION)
     for mod, cname in (c09.GM, c09.PGM):
         K = prog.get_class(cname, mod)
         c09.check_accumulators(prog, rep, K, ["afreq", "acount", "tacount", "tafreq"])
+        c09.check_fresh(prog, rep, K, ["afreq", "acount", "tacount", "tafreq", "maf", "apoly", "afixed", "meh", "gtcount"])
     c01.run_meiosis_rules(prog, rep)
